@@ -44,6 +44,16 @@ macro_rules! c02_pure {
             kani::cover!(a > b && b > c, "reach an unsorted list");
             let r1 = call_bi($f, av![l], &heap);
             let len1 = heap.borrow().verif_len();
+            // the argument is observed after *each* call (two in-place reversals cancel out), and
+            // the first result is snapshotted so that the second call cannot change it either
+            match read_list(l, &heap) {
+                Some((3, el)) => assert!(same_value(el[0], n(a)) && same_value(el[1], n(b)) && same_value(el[2], n(c))),
+                _ => panic!("argument list changed shape after the first call"),
+            }
+            let snap1 = match &r1 {
+                Ok(v) => read_list(*v, &heap),
+                Err(_) => None,
+            };
             let r2 = call_bi($f, av![l], &heap);
             assert!(len1 >= len0 && heap.borrow().verif_len() >= len1);
             match read_list(l, &heap) {
@@ -51,6 +61,12 @@ macro_rules! c02_pure {
                 _ => panic!("argument list changed shape"),
             }
             assert!(results_same(&r1, &r2, &heap));
+            if let (Some((k, before)), Ok(v)) = (snap1, &r1) {
+                match read_list(*v, &heap) {
+                    Some((k2, after)) => assert!(k == k2 && (k < 1 || same_value_shallow(before[0], after[0])) && (k < 2 || same_value_shallow(before[1], after[1])) && (k < 3 || same_value_shallow(before[2], after[2]))),
+                    None => panic!("first result changed kind during the second call"),
+                }
+            }
             std::mem::forget(heap);
         });
     };
